@@ -1,1 +1,40 @@
-/-! C20 — property theorems (stub: nothing proved yet). -/
+import B6.Model.Shell
+import B6.Lemmas.Shell
+/-!
+# C20 — Printed shell expressions parse back to the same expression
+
+Theorems about `B6.Model.Shell`: the token-level printer (`SE.toks`, mirroring `UnparseExpression` with the
+fixes/C20-*.patch applied), the recursive-descent parser for `shell.y` with the `reduce*` functions'
+positions (`parseTop`), the parse-normal form (`SE.normC`) and the printable subset (`SE.printable false`).
+
+"Equivalent" is made precise by `normC`: the parsed tree is the printed tree up to
+* a bare symbol in a call position (top level, pipeline member, group, lambda body) is a call without
+  arguments (`x` ≡ `x` applied to nothing — `Simplify` undoes this using the function's arity);
+* `a | f b …` is parsed as `(f b …)` applied to `a`: `Call{f,[a,b,…],pipelined}` ↦ `Call{Call{f,[b,…]},[a],pipelined}`;
+* a non-pipelined call without arguments prints like its function;
+* `Intersection`/`Union` lists nest to the right and a single member stands for itself;
+* a tag's value is its `String()`.
+
+The lexer, `%q`, `strconv` and goyacc's tables are outside the theorems (the tie compares the model's text and
+positioned parse tree with the real `UnparseExpression` / `ParseExpression` on every generated case).
+-/
+namespace B6.Props.C20
+open B6.Model.Shell B6.Model.FeatureID B6.Lemmas.Shell
+
+/-- **Print, then parse.**  For every expression in the printable subset, of any depth: the printer
+succeeds with some tokens `ts`, and for every way of placing those tokens in a text (`pts`: the same
+tokens with arbitrary positions, i.e. any amount of white space) the parser, given enough fuel, returns a
+tree whose shape is the normal form of the expression. -/
+theorem parse_unparse_tokens (e : SE) (esc : Bool) (hp : e.printable esc = true) (ts : List Tok)
+    (hts : e.toks true = .ok ts) (pts : List PTok) (hpts : toksOf pts = ts) :
+    ∃ n pe, PE.strip pe = e.normC ∧ ∀ F, parseTop (F + n) pts = .ok pe := by
+  obtain ⟨k, n, pe, hs, h⟩ := (se_all e hp).2.2 ts hts pts hpts [] ⟨⟨by simp [headTok], by simp [headTok]⟩, by simp [headTok]⟩
+  refine ⟨n + k + 1, pe, hs, fun F => ?_⟩
+  have hF := h (F + 1)
+  simp only [List.append_nil] at hF
+  rw [show F + (n + k + 1) = F + 1 + n + k by omega]
+  simp only [parseTop, hF]
+  rw [show F + 1 + n = (F + n) + 1 by omega, pipeLoop_stop pe [] (by simp [headTok]) (F + n)]
+  rfl
+
+end B6.Props.C20
